@@ -50,7 +50,11 @@ func newPolicy(name string, k int) l4proxy.Selector {
 }
 
 func connFrom(ip string) *layer4.Connection {
-	sc := &vh.ScriptConn{Rec: vh.NewRecorder(nil), Remote: &net.TCPAddr{IP: net.ParseIP(ip), Port: 5555}}
+	return connFromAddr(&net.TCPAddr{IP: net.ParseIP(ip), Port: 5555})
+}
+
+func connFromAddr(a net.Addr) *layer4.Connection {
+	sc := &vh.ScriptConn{Rec: vh.NewRecorder(nil), Remote: a}
 	return layer4.WrapConnection(sc, nil, zap.NewNop())
 }
 
@@ -179,7 +183,11 @@ func init() {
 			pool := l4proxy.VerifBuildPool(ups, 0)
 			rr := newPolicy("round_robin", 0)
 			iph := newPolicy("ip_hash", 0)
-			cx := connFrom([]string{"10.0.0.1", "192.168.7.9", "2001:db8::1", "172.16.3.4"}[i%4])
+			ip := []string{"10.0.0.1", "192.168.7.9", "2001:db8::1", "172.16.3.4"}[i%4]
+			cx := connFrom(ip)
+			// ip_hash is a function of the client's IP: the same client over other ports and over UDP must get the same upstream
+			iphCx := []*layer4.Connection{cx, connFromAddr(&net.UDPAddr{IP: net.ParseIP(ip), Port: 40001}),
+				connFromAddr(&net.UDPAddr{IP: net.ParseIP(ip), Port: 40002}), connFromAddr(&net.TCPAddr{IP: net.ParseIP(ip), Port: 6001})}
 			type step struct {
 				Up  []bool `json:"up"`
 				RR  int    `json:"rr"`
@@ -192,7 +200,7 @@ func init() {
 					l4proxy.VerifSetUnhealthy(pool[j], !up)
 				}
 				r := selectIdx(rr, pool, cx)
-				h := selectIdx(iph, pool, cx)
+				h := selectIdx(iph, pool, iphCx[len(iphSteps)%len(iphCx)])
 				if r != s.RR {
 					identical = false
 				}
